@@ -74,7 +74,7 @@ func wrapClient(r regSpec, conn net.Conn) (net.Conn, error) {
 	return nil, fmt.Errorf("no client")
 }
 
-func runC04(rm *cj.RegistrationManager, anns *[]cj.VerifDetectorMsg, phantom net.IP, me regSpec, early, later []byte, cuts []int, gaps []time.Duration) c04Result {
+func runC04(rm *cj.RegistrationManager, anns *[]cj.VerifDetectorMsg, phantom net.IP, me regSpec, early, later []byte, cuts []int, gaps []time.Duration, greeting []byte) c04Result {
 	vrand.Script = func(kind string, n int64) (float64, bool) {
 		if kind == "Int63n" {
 			return 2500, true
@@ -90,6 +90,10 @@ func runC04(rm *cj.RegistrationManager, anns *[]cj.VerifDetectorMsg, phantom net
 	cli.PipeTo, sta.PipeTo = sta, cli
 	cli.PipeCuts, cli.PipeGap = cuts, gaps
 	covert := &vconn.Conn{Name: "covert", Echo: true}
+	if len(greeting) > 0 {
+		// the covert destination speaks first (SMTP / SSH style): the client sends its flight and nothing else until it has read the greeting
+		covert.In = []vconn.Event{{Data: greeting}}
+	}
 	var res c04Result
 	vnet.DialHook = func(network, address string) (net.Conn, error) {
 		res.dialed = append(res.dialed, address)
@@ -107,6 +111,16 @@ func runC04(rm *cj.RegistrationManager, anns *[]cj.VerifDetectorMsg, phantom net
 					res.clientErr = "handshake: " + err.Error()
 					cli.Close()
 					return
+				}
+				if len(greeting) > 0 {
+					buf := make([]byte, len(greeting))
+					n, err := io.ReadFull(c, buf)
+					res.clientGot = append(res.clientGot, buf[:n]...)
+					if err != nil {
+						res.clientErr = "read greeting: " + err.Error()
+						c.Close()
+						return
+					}
 				}
 				for _, chunk := range [][]byte{early, later} {
 					if len(chunk) == 0 {
@@ -180,6 +194,7 @@ func verifC04(a *vh.Args) {
 		} else {
 			earlySizes = []int{0, 1, 4095 - flightLen, 4096 - flightLen, 4097 - flightLen, 65536}
 		}
+		earlySizes = append(earlySizes, -1) // -1: no early data and the covert speaks first (flight alone must be recognised)
 		for _, co := range coRes {
 			rm := vfix.Manager(nil, vfix.Selector(vfix.SubnetsTOML), &vfix.Tester{}, vfix.AllWrapping, nil)
 			var anns []cj.VerifDetectorMsg
@@ -196,6 +211,10 @@ func verifC04(a *vh.Args) {
 				addReg(rm, regSpec{secret: 4, tt: pb.TransportType_Obfs4, params: gp, valid: true}, phantom)
 			}
 			for _, E := range earlySizes {
+				var greeting []byte
+				if E < 0 {
+					E, greeting = 0, []byte("220 covert ready\r\n")
+				}
 				early := noise(E, "early")
 				// cut positions: every position of flight + min(E,64) for min/prefix; structural + every 64th for obfs4
 				var pos []int
@@ -229,7 +248,7 @@ func verifC04(a *vh.Args) {
 					stride *= 8
 				}
 				k := 0
-				for i := 0; i < len(pos); i++ {
+				for i := 0; i < len(pos) && (greeting == nil || a.Thorough()); i++ { // covert-speaks-first: whole + every 1-cut (2-cuts only in the thorough tier)
 					for j := i + 1; j < len(pos); j++ {
 						if pos[i] < pos[j] {
 							k++
@@ -249,13 +268,16 @@ func verifC04(a *vh.Args) {
 						continue
 					}
 					id := fmt.Sprintf("transport=%s;coresident=%s;early=%d;cuts=%v;gaps=%v", tc.name, co, E, cuts, gaps)
+					if greeting != nil {
+						id += ";covert-speaks-first"
+					}
 					if only != "" && id != only {
 						continue // replay: run exactly the recorded case
 					}
 					if !e.Case() {
 						goto done
 					}
-					r := runC04(rm, &anns, phantom, tc.spec, early, later, cuts, gaps)
+					r := runC04(rm, &anns, phantom, tc.spec, early, later, cuts, gaps, greeting)
 					rep := map[string]any{"case": id}
 					cls := tc.name
 					if len(cls) > 6 && cls[:6] == "prefix" {
@@ -271,7 +293,7 @@ func verifC04(a *vh.Args) {
 						e.Violation("flight-not-recognised:"+cls, fmt.Sprintf("%s: no covert dial (client: %s; verdict %s %s)", id, r.clientErr, r.verdict, r.detail), rep)
 					case !bytes.Equal(r.covertGot, want):
 						e.Violation("covert-stream-differs:"+cls, fmt.Sprintf("%s: covert received %d bytes, client sent %d after the handshake material (first difference at %d; client: %s)", id, len(r.covertGot), len(want), firstDiff(r.covertGot, want), r.clientErr), rep)
-					case !bytes.Equal(r.clientGot, want):
+					case !bytes.Equal(r.clientGot, append(append([]byte{}, greeting...), want...)):
 						e.Violation("reply-stream-differs:"+cls, fmt.Sprintf("%s: client received %d of %d echoed bytes (%s)", id, len(r.clientGot), len(want), r.clientErr), rep)
 					case r.verdict != vsched.VOK:
 						e.Violation("stalled:"+cls, id+": "+r.verdict+" "+r.detail, rep)
